@@ -106,3 +106,10 @@ Proof.
   - rewrite (fadj_id 2), (fmul_id_l 2 (fid ROps)). reflexivity.
   - rewrite (fadj_id 2), (fmul_id_l 2 (fid ROps)). reflexivity.
 Qed.
+
+(* the same for the cumulative class with linear-rk4 (Model/Traj.run_cum_rk4), any number of passes, whatever is decided *)
+Theorem C02_full_run_rk4_cumulative : forall n m dt maxdt start (ds : list (kdata (T:=R))) (s sf : tstate (T:=R)) c cf atts,
+  run_cum_rk4 ROps n m dt maxdt start ds s c = (sf, cf, atts) -> Forall (rk_ok n) ds -> mherm n (prho s) ->
+  mherm n (prho sf) /\ mtrace ROps n (prho sf) = mtrace ROps n (prho s) /\ length atts = length ds.
+Proof. intros n m dt maxdt start ds s sf c cf atts H1 H2 H3. exact (run_cum_rk4_trace_herm n m dt maxdt start ds s c sf cf atts H1 H2 H3). Qed.
+Print Assumptions C02_full_run_rk4_cumulative.
